@@ -443,6 +443,9 @@ def vtable_case(rng, bits):
         # vtable at va+0x10 ; COL pointer at va+0x0c -> COL at va+0x20 ; COL+12 -> type descriptor at va+0x40
         struct.pack_into("<I", d, 0x0C, base + s.va + 0x20)
         struct.pack_into("<I", d, 0x20 + 12, base + s.va + 0x40)
+        # a second vtable at va+0x14 (4 mod 8: legal in PE32, where pointers are 4 bytes) with its COL pointer at va+0x10
+        # (round-6 change C10-r6-3 demanded 8-byte alignment of PE32 vtables)
+        struct.pack_into("<I", d, 0x10, base + s.va + 0x20)
     else:
         struct.pack_into("<Q", d, 0x08, base + s.va + 0x20)
         struct.pack_into("<I", d, 0x20 + 12, s.va + 0x40)
@@ -492,6 +495,28 @@ def gen_exec(rng, tier):
                 o.append("pat_exec %s VTypeName,Save(0),Byte(46),Byte(63) 0x%x 2" % (k, c))
                 o.append("pat_exec %s Back(%d),Ptr,Save(0),Skip(12),ReadU32(1) 0x%x 2" % (k, bits // 8, c))
                 o.append("pat_exec %s Back(%d),Ptr,Save(0),Skip(12),Ptr,Save(1) 0x%x 2" % (k, bits // 8, c))
+            cases.append([img_line(rng, im)] + o)
+        # a gap of 256 bytes or more (`Rangext`) FOLLOWED by further skipping atoms: the range extension applies to the
+        # one atom behind it only (round-6 change C10-r6-2 / C11-r6-2 lost the reset in the Skip arm)
+        pe2 = make_pe(rng, bits=bits, nsec=2, alpha=None, wf=True)
+        s2 = pe2.sections[0]
+        s2.rs = s2.vs = 0x400
+        pe2.sections[1].va = max(pe2.sections[1].va, align_up(s2.va + 0x400, pe2.section_align))
+        d2 = bytearray([0x11] * 0x400)
+        p0 = 0x10
+        d2[p0] = 0xAA; d2[p0 + 1 + 300] = 0xCC; d2[p0 + 1 + 300 + 2] = 0xDD; d2[p0 + 1 + 300 + 2 + 1 + 3] = 0xEE
+        s2.data = bytes(d2)
+        data2 = pe2.build()
+        view2 = mapped_image(pe2, data2)
+        pats2 = ["Byte(170),Rangext(1),Skip(44),Byte(204),Skip(1),Byte(221)",
+                 "Save(0),Byte(170),Rangext(1),Skip(44),Byte(204),Skip(1),Byte(221),Many(8),Byte(238)",
+                 "Byte(170),Rangext(1),Skip(44),Byte(204),Skip(1),Byte(221),Skip(3),Byte(238)",
+                 "Byte(170),Rangext(1),Many(60),Byte(204),Many(3),Byte(221)"]
+        for k, im in (("f%d" % bits, data2), ("v%d" % bits, view2)):
+            o = []
+            for pt in pats2:
+                o.append("pat_exec %s %s 0x%x 2" % (k, pt, s2.va + p0))
+                o.append("scan %s %s 0x%x 0x%x 2" % (k, pt, s2.va, s2.va + 0x400))
             cases.append([img_line(rng, im)] + o)
         # the same chain through a view constructed with ANOTHER base address (`set_base_address`): a pointer
         # operand is translated against the base of the view, not against the ImageBase field of the header
